@@ -240,12 +240,12 @@ theorem any_buckets (hits : List Hit) (tubeWidth n a b : Nat) (d : Int) (hd : d 
     · simp only [covers, Bool.and_eq_true, decide_eq_true_eq] at hc
       omega
 
-/-! ### the scan over all diagonals -/
+/-! ### the scan over all diagonals (for an arbitrary requirement `req`) -/
 
 /-- the uncovered required matches the checker finds on the diagonal through `s` -/
-def uncOn (lk : Lookup) (t q : List UInt8) (n e tubeWidth : Nat) (selfAlign : Bool) (hits : List Hit)
+def uncOn (lk : Lookup) (t q : List UInt8) (n e tubeWidth : Nat) (req : Nat → Nat → Bool) (hits : List Hit)
     (s : Nat × Nat) : List (Nat × Nat) :=
-  let ms := (matchesOnDiagonal (codes lk t) (codes lk q) n e s.1 s.2).filter fun m => required selfAlign m.1 m.2
+  let ms := (matchesOnDiagonal (codes lk t) (codes lk q) n e s.1 s.2).filter fun m => req m.1 m.2
   let d : Int := (s.1 : Int) - s.2
   let hs := (List.range tubeWidth).flatMap fun (j : Nat) =>
     (hits.foldl bucketStep ({} : Std.HashMap Int (List Hit))).getD (d + j) []
@@ -270,13 +270,13 @@ theorem foldl_unc {α : Type} (f : Nat × List (List (Nat × Nat)) → α → Na
         List.flatten_cons, List.flatten_nil, List.append_nil, List.mem_append, or_assoc]
 
 /-- what the checker lists is exactly what it finds uncovered on some diagonal -/
-theorem mem_uncovered_iff (lk : Lookup) (t q : List UInt8) (n e tubeWidth : Nat) (selfAlign : Bool)
+theorem mem_uncoveredBy_iff (lk : Lookup) (t q : List UInt8) (n e tubeWidth : Nat) (req : Nat → Nat → Bool)
     (hits : List Hit) (x : Nat × Nat) :
-    x ∈ (uncovered lk t q n e tubeWidth selfAlign hits).2 ↔
-      ∃ s ∈ diagonalStarts t.length q.length, x ∈ uncOn lk t q n e tubeWidth selfAlign hits s := by
-  unfold uncovered
+    x ∈ (uncoveredBy lk t q n e tubeWidth req hits).2 ↔
+      ∃ s ∈ diagonalStarts t.length q.length, x ∈ uncOn lk t q n e tubeWidth req hits s := by
+  unfold uncoveredBy
   simp only [codes_size]
-  rw [foldl_unc _ (uncOn lk t q n e tubeWidth selfAlign hits)]
+  rw [foldl_unc _ (uncOn lk t q n e tubeWidth req hits)]
   · simp
   · intro acc s
     simp only [uncOn]
@@ -287,10 +287,10 @@ theorem mem_uncovered_iff (lk : Lookup) (t q : List UInt8) (n e tubeWidth : Nat)
     · rfl
 
 /-- membership in the per-diagonal list, declaratively -/
-theorem mem_uncOn (lk : Lookup) (t q : List UInt8) (n e tubeWidth : Nat) (selfAlign : Bool)
+theorem mem_uncOn (lk : Lookup) (t q : List UInt8) (n e tubeWidth : Nat) (req : Nat → Nat → Bool)
     (hits : List Hit) (s : Nat × Nat) (hs : s ∈ diagonalStarts t.length q.length) (a b : Nat) :
-    (a, b) ∈ uncOn lk t q n e tubeWidth selfAlign hits s ↔
-      (∃ i, a = s.1 + i ∧ b = s.2 + i) ∧ EpsMatch lk t q n e a b ∧ required selfAlign a b = true ∧
+    (a, b) ∈ uncOn lk t q n e tubeWidth req hits s ↔
+      (∃ i, a = s.1 + i ∧ b = s.2 + i) ∧ EpsMatch lk t q n e a b ∧ req a b = true ∧
         ¬ Covered hits tubeWidth n a b := by
   have hb := diagonalStarts_bounds _ _ s hs
   unfold uncOn
@@ -310,8 +310,8 @@ theorem mem_uncOn (lk : Lookup) (t q : List UInt8) (n e tubeWidth : Nat) (selfAl
 /-! ### the count of required matches (the `nt` / `no-match` tag) -/
 
 /-- the required matches the checker finds on the diagonal through `s` -/
-def reqOn (lk : Lookup) (t q : List UInt8) (n e : Nat) (selfAlign : Bool) (s : Nat × Nat) : List (Nat × Nat) :=
-  (matchesOnDiagonal (codes lk t) (codes lk q) n e s.1 s.2).filter fun m => required selfAlign m.1 m.2
+def reqOn (lk : Lookup) (t q : List UInt8) (n e : Nat) (req : Nat → Nat → Bool) (s : Nat × Nat) : List (Nat × Nat) :=
+  (matchesOnDiagonal (codes lk t) (codes lk q) n e s.1 s.2).filter fun m => req m.1 m.2
 
 theorem foldl_cnt {α : Type} (f : Nat × List (List (Nat × Nat)) → α → Nat × List (List (Nat × Nat)))
     (c : α → Nat) (hf : ∀ acc s, (f acc s).1 = acc.1 + c s) :
@@ -325,13 +325,13 @@ theorem foldl_cnt {α : Type} (f : Nat × List (List (Nat × Nat)) → α → Na
     rw [List.foldl_cons, ih, hf, List.map_cons, List.sum_cons]
     omega
 
-theorem uncovered_fst (lk : Lookup) (t q : List UInt8) (n e tubeWidth : Nat) (selfAlign : Bool)
+theorem uncoveredBy_fst (lk : Lookup) (t q : List UInt8) (n e tubeWidth : Nat) (req : Nat → Nat → Bool)
     (hits : List Hit) :
-    (uncovered lk t q n e tubeWidth selfAlign hits).1 =
-      ((diagonalStarts t.length q.length).map fun s => (reqOn lk t q n e selfAlign s).length).sum := by
-  unfold uncovered
+    (uncoveredBy lk t q n e tubeWidth req hits).1 =
+      ((diagonalStarts t.length q.length).map fun s => (reqOn lk t q n e req s).length).sum := by
+  unfold uncoveredBy
   simp only [codes_size]
-  rw [foldl_cnt _ (fun s => (reqOn lk t q n e selfAlign s).length)]
+  rw [foldl_cnt _ (fun s => (reqOn lk t q n e req s).length)]
   · simp
   · intro acc s
     simp only [reqOn]
@@ -341,14 +341,12 @@ theorem uncovered_fst (lk : Lookup) (t q : List UInt8) (n e tubeWidth : Nat) (se
       simp [hms]
     · rfl
 
-/-- **the count behind the `nt` tag**: the number the checker reports is 0 exactly when the pair
-    has no required ε-match at all (for `n ≥ 1`), so a case tagged `no-match` demands nothing and a
-    case tagged `nt` demands something -/
-theorem nreq_zero_iff (lk : Lookup) (t q : List UInt8) (n e tubeWidth : Nat) (selfAlign : Bool)
+/-- the count the checker reports is 0 exactly when the pair has no required ε-match (any `req`) -/
+theorem nreqBy_zero_iff (lk : Lookup) (t q : List UInt8) (n e tubeWidth : Nat) (req : Nat → Nat → Bool)
     (hits : List Hit) (hn : 1 ≤ n) :
-    (uncovered lk t q n e tubeWidth selfAlign hits).1 = 0 ↔
-      ∀ a b, EpsMatch lk t q n e a b → required selfAlign a b = false := by
-  rw [uncovered_fst, List.sum_eq_zero_iff_forall_eq_nat]
+    (uncoveredBy lk t q n e tubeWidth req hits).1 = 0 ↔
+      ∀ a b, EpsMatch lk t q n e a b → req a b = false := by
+  rw [uncoveredBy_fst, List.sum_eq_zero_iff_forall_eq_nat]
   simp only [List.mem_map, forall_exists_index, and_imp, forall_apply_eq_imp_iff₂,
     List.length_eq_zero_iff]
   constructor
@@ -371,7 +369,45 @@ theorem nreq_zero_iff (lk : Lookup) (t q : List UInt8) (n e tubeWidth : Nat) (se
     obtain ⟨i, hai, hbi, hm⟩ := (mem_matchesOnDiagonal lk t q n e s.1 s.2 hb.1 hb.2 a b).mp hab
     simp [h a b hm]
 
+/-- soundness and completeness of the scan for an arbitrary requirement -/
+theorem checkerBy_iff (lk : Lookup) (t q : List UInt8) (n e tubeWidth : Nat) (req : Nat → Nat → Bool)
+    (hits : List Hit) (hn : 1 ≤ n) :
+    (uncoveredBy lk t q n e tubeWidth req hits).2 = [] ↔
+      ∀ a b, EpsMatch lk t q n e a b → req a b = true → Covered hits tubeWidth n a b := by
+  constructor
+  · intro h a b hm hr
+    obtain ⟨s, hs, i, hai, hbi⟩ := diagonalStarts_complete t.length q.length a b
+      (by have := hm.1; omega) (by have := hm.2.1; omega)
+    apply Classical.byContradiction
+    intro hc
+    have : (a, b) ∈ (uncoveredBy lk t q n e tubeWidth req hits).2 :=
+      (mem_uncoveredBy_iff ..).mpr ⟨s, hs, (mem_uncOn lk t q n e tubeWidth req hits s hs a b).mpr
+        ⟨⟨i, hai, hbi⟩, hm, hr, hc⟩⟩
+    rw [h] at this
+    cases this
+  · intro h
+    rw [List.eq_nil_iff_forall_not_mem]
+    rintro ⟨a, b⟩ hab
+    obtain ⟨s, hs, hx⟩ := (mem_uncoveredBy_iff ..).mp hab
+    obtain ⟨_, hm, hr, hc⟩ := (mem_uncOn lk t q n e tubeWidth req hits s hs a b).mp hx
+    exact hc (h a b hm hr)
+
+theorem mem_uncoveredBy (lk : Lookup) (t q : List UInt8) (n e tubeWidth : Nat) (req : Nat → Nat → Bool)
+    (hits : List Hit) (a b : Nat) (h : (a, b) ∈ (uncoveredBy lk t q n e tubeWidth req hits).2) :
+    EpsMatch lk t q n e a b ∧ req a b = true ∧ ¬ Covered hits tubeWidth n a b := by
+  obtain ⟨s, hs, hx⟩ := (mem_uncoveredBy_iff ..).mp h
+  exact ((mem_uncOn lk t q n e tubeWidth req hits s hs a b).mp hx).2
+
 /-! ### property theorems -/
+
+/-- **the count behind the `nt` tag**: the number the checker reports is 0 exactly when the pair
+    has no required ε-match at all (for `n ≥ 1`), so a case tagged `no-match` demands nothing and a
+    case tagged `nt` demands something -/
+theorem nreq_zero_iff (lk : Lookup) (t q : List UInt8) (n e tubeWidth : Nat) (selfAlign : Bool)
+    (hits : List Hit) (hn : 1 ≤ n) :
+    (uncovered lk t q n e tubeWidth selfAlign hits).1 = 0 ↔
+      ∀ a b, EpsMatch lk t q n e a b → required selfAlign a b = false :=
+  nreqBy_zero_iff lk t q n e tubeWidth (required selfAlign) hits hn
 
 /-- **soundness and completeness of the C14 checker**: for window length `n ≥ 1` (implied by a
     positive q-gram threshold with `k ≥ 1`) the list of uncovered matches the driver computes from
@@ -381,24 +417,8 @@ theorem nreq_zero_iff (lk : Lookup) (t q : List UInt8) (n e tubeWidth : Nat) (se
 theorem checker_iff (lk : Lookup) (t q : List UInt8) (n e tubeWidth : Nat) (selfAlign : Bool)
     (hits : List Hit) (hn : 1 ≤ n) :
     (uncovered lk t q n e tubeWidth selfAlign hits).2 = [] ↔
-      ∀ a b, EpsMatch lk t q n e a b → required selfAlign a b = true → Covered hits tubeWidth n a b := by
-  constructor
-  · intro h a b hm hr
-    obtain ⟨s, hs, i, hai, hbi⟩ := diagonalStarts_complete t.length q.length a b
-      (by have := hm.1; omega) (by have := hm.2.1; omega)
-    apply Classical.byContradiction
-    intro hc
-    have : (a, b) ∈ (uncovered lk t q n e tubeWidth selfAlign hits).2 :=
-      (mem_uncovered_iff ..).mpr ⟨s, hs, (mem_uncOn lk t q n e tubeWidth selfAlign hits s hs a b).mpr
-        ⟨⟨i, hai, hbi⟩, hm, hr, hc⟩⟩
-    rw [h] at this
-    cases this
-  · intro h
-    rw [List.eq_nil_iff_forall_not_mem]
-    rintro ⟨a, b⟩ hab
-    obtain ⟨s, hs, hx⟩ := (mem_uncovered_iff ..).mp hab
-    obtain ⟨_, hm, hr, hc⟩ := (mem_uncOn lk t q n e tubeWidth selfAlign hits s hs a b).mp hx
-    exact hc (h a b hm hr)
+      ∀ a b, EpsMatch lk t q n e a b → required selfAlign a b = true → Covered hits tubeWidth n a b :=
+  checkerBy_iff lk t q n e tubeWidth (required selfAlign) hits hn
 
 /-- soundness alone, in the form the driver uses it: an empty list of uncovered matches (verdict
     `ok`/`diff`) means the implementation's hits satisfy the conclusion of `filter_complete` -/
@@ -412,9 +432,8 @@ theorem checker_sound (lk : Lookup) (t q : List UInt8) (n e tubeWidth : Nat) (se
     ones only) -/
 theorem mem_uncovered (lk : Lookup) (t q : List UInt8) (n e tubeWidth : Nat) (selfAlign : Bool)
     (hits : List Hit) (a b : Nat) (h : (a, b) ∈ (uncovered lk t q n e tubeWidth selfAlign hits).2) :
-    EpsMatch lk t q n e a b ∧ required selfAlign a b = true ∧ ¬ Covered hits tubeWidth n a b := by
-  obtain ⟨s, hs, hx⟩ := (mem_uncovered_iff ..).mp h
-  exact ((mem_uncOn lk t q n e tubeWidth selfAlign hits s hs a b).mp hx).2
+    EpsMatch lk t q n e a b ∧ required selfAlign a b = true ∧ ¬ Covered hits tubeWidth n a b :=
+  mem_uncoveredBy lk t q n e tubeWidth (required selfAlign) hits a b h
 
 /-- the hypothesis `1 ≤ n` of `checker_iff` holds wherever the driver evaluates the statement (and
     wherever `filter_complete` speaks): a positive q-gram threshold `n + 1 - k(e+1)` with a word
@@ -430,6 +449,50 @@ theorem checker_iff_in_scope (lk : Lookup) (t q : List UInt8) (k n e tubeWidth :
     have : ((k * (e + 1) : Nat) : Int) = (k : Int) * ((e : Int) + 1) := by simp
     have h2 : 1 ≤ k * (e + 1) := Nat.mul_pos hk (by omega)
     omega
+  omega
+
+/-! ### either strand: the checker the driver runs (`uncoveredC`, requirement `requiredC`) -/
+
+/-- on the forward strand the driver's checker is the checker of `checker_iff` -/
+theorem uncoveredC_forward (lk : Lookup) (t q : List UInt8) (n e tubeWidth : Nat) (selfAlign : Bool)
+    (hits : List Hit) :
+    uncoveredC lk t q n e tubeWidth selfAlign false hits = uncovered lk t q n e tubeWidth selfAlign hits := rfl
+
+/-- **`checker_iff` for either strand** — the executable statement the driver evaluates
+    (`uncoveredC`, with the `complement` flag of the case) lists nothing exactly when every ε-match
+    that is required on that strand (`requiredC`: forward `a < b`, complement strand of a self
+    comparison `Tlen ≤ a + b`, everything otherwise) is `Covered` — the conclusion of
+    `filter_complete` / `filter_complete_complement` with the implementation's hits. -/
+theorem checker_iff_strand (lk : Lookup) (t q : List UInt8) (n e tubeWidth : Nat) (selfAlign complement : Bool)
+    (hits : List Hit) (hn : 1 ≤ n) :
+    (uncoveredC lk t q n e tubeWidth selfAlign complement hits).2 = [] ↔
+      ∀ a b, EpsMatch lk t q n e a b → requiredC selfAlign complement t.length a b = true →
+        Covered hits tubeWidth n a b :=
+  checkerBy_iff lk t q n e tubeWidth (requiredC selfAlign complement t.length) hits hn
+
+/-- every pair the driver's checker lists is an ε-match required on that strand that no hit covers -/
+theorem mem_uncoveredC (lk : Lookup) (t q : List UInt8) (n e tubeWidth : Nat) (selfAlign complement : Bool)
+    (hits : List Hit) (a b : Nat) (h : (a, b) ∈ (uncoveredC lk t q n e tubeWidth selfAlign complement hits).2) :
+    EpsMatch lk t q n e a b ∧ requiredC selfAlign complement t.length a b = true ∧ ¬ Covered hits tubeWidth n a b :=
+  mem_uncoveredBy lk t q n e tubeWidth (requiredC selfAlign complement t.length) hits a b h
+
+/-- the count behind the `nt` tag, either strand -/
+theorem nreqC_zero_iff (lk : Lookup) (t q : List UInt8) (n e tubeWidth : Nat) (selfAlign complement : Bool)
+    (hits : List Hit) (hn : 1 ≤ n) :
+    (uncoveredC lk t q n e tubeWidth selfAlign complement hits).1 = 0 ↔
+      ∀ a b, EpsMatch lk t q n e a b → requiredC selfAlign complement t.length a b = false :=
+  nreqBy_zero_iff lk t q n e tubeWidth (requiredC selfAlign complement t.length) hits hn
+
+/-- **the complement requirement finds every inverted repeat with disjoint arms exactly once**: in
+    a self comparison of a sequence of length `L` the window pair `(a, b)` of the complement strand
+    and its mirror image `(L-b-n, L-a-n)` are the same pair of regions (`n ≥ 1`); if the regions are disjoint
+    (`a + n ≤ L - b - n` or `L - b ≤ a`) exactly one of the two images is required. -/
+theorem requiredC_mirror (L n a b : Nat) (hn : 1 ≤ n) (ha : a + n ≤ L) (hb : b + n ≤ L)
+    (hdisj : a + n ≤ L - b - n ∨ L - b ≤ a) :
+    (requiredC true true L a b = true ∧ requiredC true true L (L - b - n) (L - a - n) = false) ∨
+    (requiredC true true L a b = false ∧ requiredC true true L (L - b - n) (L - a - n) = true) := by
+  unfold requiredC
+  simp only [Bool.not_true, Bool.false_or, if_true, decide_eq_true_eq, decide_eq_false_iff_not]
   omega
 
 /-- lower-case DNA lookup -/
